@@ -16,6 +16,7 @@ package blockextractor
 //@     invariant [all] forall k :: 0 <= k && k < $i && msgs[k].block != nil ==> (exists p :: 0 <= p && p < len(messagesWithBlock) && messagesWithBlock[p] == msgs[k])
 
 //@ func sortMessagesByDescendingViewOfPreparedProofPPM
+//@   modifies backing:msgs
 //@   props C09
 //@   requires forall k :: 0 <= k && k < len(msgs) ==> msgs[k] != nil
 //@   ensures [same-length] len(result) == len(msgs)
